@@ -71,9 +71,21 @@ func (w *World) stepFault(pre *Snapshot, op Op) StepOut {
 			return out
 		}
 		appended := logAfterFull[len(logBefore):]
+		// cut offsets: a third of the time one of the edges (first byte, just before the final
+		// brace, just before the final newline, between two lines of a batch), else anywhere
 		j := 1 + int(op.Frac*float64(len(appended)-1))
+		if k := int(op.Frac*1000) % 9; k < 3 {
+			edges := []int{1, len(appended) - 2, len(appended) - 1}
+			if nl := strings.IndexByte(string(appended), '\n'); nl >= 0 && nl+1 < len(appended) {
+				edges = append(edges, nl, nl+1)
+			}
+			j = edges[int(op.Frac*7919)%len(edges)]
+		}
 		if j >= len(appended) {
 			j = len(appended) - 1
+		}
+		if j < 1 {
+			j = 1
 		}
 		f, err := os.OpenFile(LogPath(w.Root), os.O_APPEND|os.O_WRONLY, 0o644)
 		if err != nil {
